@@ -187,6 +187,19 @@ def run_case(spec, ctx):
             ctx.violation("own-sample-rejected", who,
                           f"{rej.sum()} of {rows} own {how} boundary samples rejected by the boundary's "
                           f"_contains, e.g. { {kk: np.round(v[i], 6).tolist() for kk, v in e_own.items()} }")
+    # a polyhedron built with its own boundary tolerance: rows closer to a face than that tolerance are on
+    # the boundary by the user's declaration (judged where the declared tolerance dominates float32 rounding)
+    A0 = E.get("a", {})
+    if E["t"] == "boundary" and A0.get("t") == "mesh" and A0.get("tol") and A0["tol"] >= 20 * tol["tol_b"]:
+        bp, bn = rg.leaf_boundary_points(A0, {}, 4)
+        qs = np.concatenate([bp + f * A0["tol"] * bn for f in (0.45, -0.45, 0.2)])
+        e_t = geo.env32({A0["var"]: qs})
+        vals_t = _lib_contains(ctx, D, e_t, "_contains(rows within the declared tol)", top)
+        if vals_t is not None and (~vals_t).any():
+            i = int(np.where(~vals_t)[0][0])
+            ctx.violation("declared-tol-ignored", "mesh", f"{(~vals_t).sum()} of {len(vals_t)} rows within 0.45*tol (tol={A0['tol']}) of a face "
+                          f"are rejected by the boundary, e.g. {np.round(qs[i], 6).tolist()}")
+        classes.append("mesh-declared-tol")
     # far rows must be rejected, reference-certain boundary rows accepted
     for ext in (_extended_edge_queries(E, penv, k), _operand_boundary_queries(E, penv, k)):
         if ext is not None:
@@ -344,4 +357,9 @@ def extra_cases(tier, seed):
         node["disjoint" if op == "union" else "contained"] = fl
         out.append({"dom": {"E": {"t": "boundary", "a": node}, "kind": "boundary", "pvars": [], "lattice": True, "far": False},
                     "prows": {}, "rng": 3 + seed})
+    box = [[sx * 0.7 + 1, sy * 0.5 - 2, sz * 0.9] for sx in (-1, 1) for sy in (-1, 1) for sz in (-1, 1)]
+    boxf = [[0, 1, 3], [0, 3, 2], [4, 6, 7], [4, 7, 5], [0, 4, 5], [0, 5, 1], [2, 3, 7], [2, 7, 6], [0, 2, 6], [0, 6, 4], [1, 5, 7], [1, 7, 3]]
+    for tl in (0.01, 0.003):
+        out.append({"dom": {"E": {"t": "boundary", "a": {"t": "mesh", "var": "y", "verts": box, "faces": boxf, "kind": "box", "winding": "out", "tol": tl}},
+                            "kind": "boundary", "pvars": [], "lattice": False, "far": False}, "prows": {}, "rng": 7 + seed})
     return out
